@@ -129,6 +129,8 @@ package nsqd
 //@   ensures[others-kept] result == nil ==> (forall k string :: {atunlock(t.channelMap[k])} k != channelName ==> (atunlock(has(t.channelMap, k)) <==> atlock(has(t.channelMap, k))) && atunlock(t.channelMap[k]) == atlock(t.channelMap[k]))
 //@   ensures[persists-nothing] kBqCloses == old(kBqCloses) && kFlushes == old(kFlushes) && backendWrites == old(backendWrites)
 //@   ensures[refused-starts-nothing] result != nil ==> onceSpawns == old(onceSpawns)
+//   (round 7) what is started is the literal that hands the topic to its delete callback (DeleteExistingChannel$1, zz_contracts_r7_verif.go)
+//@   ensures[deletion-runs-the-delete-callback] onceSpawns != old(onceSpawns) ==> onceSpawnedFn == "(*github.com/nsqio/nsq/nsqd.Topic).DeleteExistingChannel$1"
 //@   ensures[topic-follows-only-if-ephemeral] onceSpawns != old(onceSpawns) ==> t.ephemeral && result == nil && onceSpawns == old(onceSpawns) + 1 && onceSpawned == &t.deleter && atunlock(len(t.channelMap)) == 0
 //@   ensures[ephemeral-topic-follows-last-channel] result == nil && t.ephemeral && atunlock(len(t.channelMap)) == 0 ==> onceSpawns == old(onceSpawns) + 1
 //@   modifies t.channelMap, mapstore(map[string]*Channel), kNotifies, onceSpawns, Channel.exitFlag, Channel.clients, mapstore(map[int64]Consumer), clientV2.InFlightCount, kConsEmptied, kConsClosed, kLastCons, Channel.inFlightMessages, Channel.inFlightPQ, mapstore(map[MessageID]*Message), Message.index, Channel.deferredMessages, Channel.deferredPQ, mapstore(map[MessageID]*pqueue.Item), kInitPQs, kBqEmpties, kBqDeletes, kChanDeletes, kBqCloses, kFlushes, backendWrites, lastWriteMsg, lastWriteQueue, lastWriteErr, chanstore(*Message), chanstore(int), jDelChanCalls
